@@ -404,6 +404,16 @@ def rebuild_monitor(chk, cases, tier):
             new = 0.75 if old != 0.75 else 0.25
             c2["mols"][k]["modes"][0]["hr"] = new
             mols[k].get_Mode(0).set_HR(1, new)
+            if done % 3 == 0:
+                # the mode SET of a molecule changes too: one more mode on the first molecule (keeps Ntot small)
+                import quantarhei as qr
+                extra = {"omega": 2, "nmax": [2, 2], "hr": 0.5}
+                c2["mols"][0]["modes"] = list(c2["mols"][0]["modes"]) + [extra]
+                md = qr.Mode(float(extra["omega"]))
+                mols[0].add_Mode(md)
+                md.set_nmax(0, 2)
+                md.set_nmax(1, 2)
+                md.set_HR(1, 0.5)
             how = ["build", "rebuild"][done % 2]
             if how == "build":
                 agg.build(mult=c["mult"])
